@@ -40,7 +40,7 @@ theorem GoodL.nodup' {L : List Ty} (h : GoodL L) : L.Nodup := by
   refine List.Pairwise.imp_of_mem ?_ hn
   intro a _ ha _ hab heq
   subst heq
-  rw [h.refl a ha] at hab
+  rw [Ty.keq_self (h.refl a ha)] at hab
   cases hab
 
 /-- any duplicate-free list of members of a good list is good (in any order) -/
@@ -52,8 +52,8 @@ theorem GoodL.of_subset {L P : List Ty} (h : GoodL L) (hs : ∀ a ∈ P, a ∈ L
   -- a ≠ b, both in L: they sit at different positions of L
   have hL := h.nodup
   unfold HNodup at hL
-  have key : ∀ {l : List Ty}, l.Pairwise (fun e v => Ty.hashEq e v = false) → ∀ a ∈ l, ∀ b ∈ l, a ≠ b →
-      Ty.hashEq a b = false := by
+  have key : ∀ {l : List Ty}, l.Pairwise (fun e v => Ty.keq e v = false) → ∀ a ∈ l, ∀ b ∈ l, a ≠ b →
+      Ty.keq a b = false := by
     intro l hl
     induction hl with
     | nil => intro a ha; simp at ha
@@ -64,7 +64,7 @@ theorem GoodL.of_subset {L P : List Ty} (h : GoodL L) (hs : ∀ a ∈ P, a ∈ L
       rcases ha with rfl | ha <;> rcases hb with rfl | hb
       · exact absurd rfl hne
       · exact hx b hb
-      · rw [Ty.hashEq_comm]; exact hx a ha
+      · rw [Ty.keq_comm]; exact hx a ha
       · exact ih a ha b hb hne
   exact key hL a (hs a ha) b (hs b hb) hab
 
@@ -96,9 +96,9 @@ theorem decompose_unite (tbl : ClassTable) (b : Bool) (t : Ty) {L : List Ty} (h 
 
 /-- two members of a good list that hash equal are the same member -/
 theorem GoodL.eq_of_hashEq {L : List Ty} (h : GoodL L) {a b : Ty} (ha : a ∈ L) (hb : b ∈ L)
-    (hab : Ty.hashEq a b = true) : a = b := by
-  have key : ∀ {l : List Ty}, l.Pairwise (fun e v => Ty.hashEq e v = false) → ∀ a ∈ l, ∀ b ∈ l, a ≠ b →
-      Ty.hashEq a b = false := by
+    (hab : Ty.keq a b = true) : a = b := by
+  have key : ∀ {l : List Ty}, l.Pairwise (fun e v => Ty.keq e v = false) → ∀ a ∈ l, ∀ b ∈ l, a ≠ b →
+      Ty.keq a b = false := by
     intro l hl
     induction hl with
     | nil => intro a ha; simp at ha
@@ -109,7 +109,7 @@ theorem GoodL.eq_of_hashEq {L : List Ty} (h : GoodL L) {a b : Ty} (ha : a ∈ L)
       rcases ha with rfl | ha <;> rcases hb with rfl | hb
       · exact absurd rfl hne
       · exact hx b hb
-      · rw [Ty.hashEq_comm]; exact hx a ha
+      · rw [Ty.keq_comm]; exact hx a ha
       · exact ih a ha b hb hne
   apply Classical.byContradiction
   intro hne
@@ -170,12 +170,12 @@ theorem subtract_unite {L : List Ty} (h : GoodL L) (p : Ty → Bool)
   intro m hm
   cases hpm : p m
   · have hmF : m ∈ L.filter fun m => !p m := List.mem_filter.mpr ⟨hm, by simp [hpm]⟩
-    have : dictMem m (L.filter fun m => !p m) = true := dictMem_iff.mpr ⟨m, hmF, h.refl m hm⟩
+    have : dictMem m (L.filter fun m => !p m) = true := dictMem_iff.mpr ⟨m, hmF, Ty.keq_self (h.refl m hm)⟩
     simp [this]
   · have : dictMem m (L.filter fun m => !p m) = false := by
       rw [dictMem_false_iff]
       intro e he
-      cases hh : Ty.hashEq e m
+      cases hh : Ty.keq e m
       · rfl
       · have heL := (List.mem_filter.mp he).1
         have := h.eq_of_hashEq heL hm hh
@@ -1304,14 +1304,14 @@ theorem unite_beq_of_same_set {A B : List Ty} (hAB : ∀ v, v ∈ A ↔ v ∈ B)
     exact hr v hv y hyv
   have hrY : ∀ y ∈ B.flatMap flatten1, Ty.hashEq y y = true := fun y hy => hrX y ((hXY y).mpr hy)
   have cover : ∀ {X Y : List Ty}, (∀ y, y ∈ X ↔ y ∈ Y) → (∀ y ∈ Y, Ty.hashEq y y = true) →
-      ∀ x ∈ dedup [] X, ∃ y ∈ dedup [] Y, Ty.hashEq y x = true := by
+      ∀ x ∈ dedup [] X, ∃ y ∈ dedup [] Y, Ty.keq y x = true := by
     intro X Y hxy hry x hx
     exact dedup_coverH Y hry x ((hxy x).mp (dedup_nil_sub X x hx))
   have single : ∀ {X Y : List Ty}, (∀ y, y ∈ X ↔ y ∈ Y) → (∀ y ∈ X, Ty.hashEq y y = true) →
       (dedup [] X).length = 1 → (dedup [] Y).length = 1 := by
     intro X Y hxy hrx h1
     obtain ⟨a, ha⟩ := List.length_eq_one_iff.mp h1
-    have hall : ∀ y ∈ dedup [] Y, Ty.hashEq a y = true := by
+    have hall : ∀ y ∈ dedup [] Y, Ty.keq a y = true := by
       intro y hy
       have hyX : y ∈ X := (hxy y).mpr (dedup_nil_sub Y y hy)
       obtain ⟨e, he, hey⟩ := dedup_coverH X hrx y hyX
